@@ -16,5 +16,6 @@ func main() {
 	w := hsx.NewWorld()
 	w.C10Server(r)
 	w.C10Names()
+	w.C10HopServer(r)
 	w.C10Client(r)
 }
